@@ -343,6 +343,7 @@ class Sim:
         self.log = []
         self.counters = {}
         self.stalls = {}  # (cid, side) -> [(from_seq, seconds)]
+        self.tasks = []
 
     # -- bookkeeping
     def count(self, name, n=1):
@@ -365,7 +366,9 @@ class Sim:
     def spawn(self, proc, coro_fn, *a, **kw):
         ctx = contextvars.copy_context()
         ctx.run(PROC.set, proc)
-        return ctx.run(lambda: self.loop.create_task(coro_fn(*a, **kw)))
+        task = ctx.run(lambda: self.loop.create_task(coro_fn(*a, **kw)))
+        self.tasks.append(task)  # asyncio holds tasks weakly; a process' main task must not be collected
+        return task
 
     async def run_in(self, proc, coro_fn, *a, **kw):
         """run a coroutine inside `proc`; returns ('ok', value) | ('exc', exception) | ('died', None)"""
